@@ -721,6 +721,7 @@ Proof. unfold V. simpl. apply madd_0_r. Qed.
 
 (* ------------------------------------------------------------ replace_arguments *)
 Notation ArgsT := (tArgs A T).
+Notation ReplT := (tRepl A T).
 Notation crep := (crep A T).
 Notation rep := (rep A T).
 
@@ -737,11 +738,11 @@ Lemma wf_rep ov (es : qevoT) : Forall (wf A T) es -> Forall (wf A T) (rep ov es)
 Proof. destruct ov; simpl; auto. apply Forall_wf_map. intros e. apply wf_ereplace. Qed.
 
 Lemma creplace_creplace m n (c : coefT) :
-  creplace A T m (creplace A T n c) = creplace A T (amerge A T n m) c.
+  creplace A T m (creplace A T n c) = creplace A T (rcomb A T n m) c.
 Proof. induction c; simpl; try congruence. rewrite amerge_assoc. reflexivity. Qed.
 
 Lemma ereplace_ereplace m n (e : elemT) :
-  ereplace A T m (ereplace A T n e) = ereplace A T (amerge A T n m) e.
+  ereplace A T m (ereplace A T n e) = ereplace A T (rcomb A T n m) e.
 Proof.
   induction e as [q|q c|f a|f a trs w|l IHl r IHr trs cj]; simpl;
     rewrite ?amerge_assoc, ?creplace_creplace; congruence.
@@ -871,7 +872,7 @@ Qed.
 
 Lemma rep_rep ov n (es : qevoT) :
   rep ov (map (ereplace A T n) es)
-  = rep (Some (match ov with None => n | Some m => amerge A T n m end)) es.
+  = rep (Some (match ov with None => n | Some m => rcomb A T n m end)) es.
 Proof.
   destruct ov; [|reflexivity]. unfold rep. rewrite map_map. apply map_ext. intros e.
   apply ereplace_ereplace.
@@ -939,6 +940,31 @@ Proof.
   - rewrite rep_compress, V_compress by wfr. rewrite rep_rep. apply IHx. exact Hx.
   - rewrite rep_rep. apply IHx. exact Hx.
   - apply IHx. exact Hx.
+Qed.
+
+(* a history of replacements is one replacement by the combined dictionary *)
+Definition hist_ov (hist : list ReplT) : option ReplT :=
+  match hist with [] => None | n :: r => Some (fold_left (rcomb A T) r n) end.
+
+Lemma arguments_fold (hist : list ReplT) : forall n (es : qevoT),
+  fold_left (fun es m => qe_arguments A T m es) hist (qe_arguments A T n es)
+  = qe_arguments A T (fold_left (rcomb A T) hist n) es.
+Proof.
+  induction hist as [|m hist IH]; intros n es; simpl; [reflexivity|].
+  unfold qe_arguments at 2 3. rewrite map_map.
+  rewrite (map_ext _ _ (fun e => ereplace_ereplace m n e)).
+  apply (IH (rcomb A T n m) es).
+Qed.
+
+Lemma arguments_history (hist : list ReplT) (es : qevoT) :
+  fold_left (fun es m => qe_arguments A T m es) hist es = rep (hist_ov hist) es.
+Proof. destruct hist as [|n r]; [reflexivity|]. simpl. apply arguments_fold. Qed.
+
+Lemma amerge_fold (hist : list ReplT) : forall n (a : ArgsT),
+  fold_left (amerge A T) hist (amerge A T a n) = amerge A T a (fold_left (rcomb A T) hist n).
+Proof.
+  induction hist as [|m hist IH]; intros n a; simpl; [reflexivity|].
+  rewrite amerge_assoc. apply IH.
 Qed.
 
 Lemma pointwise (x : qx A T) t : wfx A T x -> V (build A T x) t = sem A T x t.
@@ -1021,11 +1047,50 @@ Proof.
   unfold zsep, zclose_new, ten15. intros Ha Hb H. apply Z.leb_le in H. lia.
 Qed.
 
-Lemma zmerge_assoc (a m n : option Z) : zmerge (zmerge a m) n = zmerge a (zmerge m n).
-Proof. destruct n, m; reflexivity. Qed.
+Lemma dfilt_app ps (n m : dict) : dfilt ps (n ++ m) = dfilt ps n ++ dfilt ps m.
+Proof. unfold dfilt. apply filter_app. Qed.
+
+Lemma dmerge_assoc (a : dstate) (m n : dict) : dmerge (dmerge a m) n = dmerge a (dcomb m n).
+Proof.
+  destruct a as [ps a]. unfold dmerge, dcomb. simpl. rewrite dfilt_app, app_assoc. reflexivity.
+Qed.
 
 Definition ZT : TimeS G2 :=
-  @Build_TimeS G2 Z Z.leb zclose_new zdiff zsep zclose_new_sep (option Z) zmerge zmerge_assoc.
+  @Build_TimeS G2 Z Z.leb zclose_new zdiff zsep zclose_new_sep dstate dict dmerge dcomb
+               dmerge_assoc.
+
+(* ---- what a function leaf sees after any history of replacements *)
+Lemma lookup_app k (a b : dict) :
+  lookup k (a ++ b) = match lookup k a with Some v => Some v | None => lookup k b end.
+Proof.
+  induction a as [|[k' v] a IH]; simpl; [reflexivity|]. destruct (Z.eqb k k'); auto.
+Qed.
+
+Lemma lookup_dfilt ps k (n : dict) :
+  lookup k (dfilt ps n) = if allowed ps k then lookup k n else None.
+Proof.
+  induction n as [|[k' v] n IH]; simpl; [destruct (allowed ps k); reflexivity|].
+  destruct (allowed ps k') eqn:Ek'; simpl.
+  - destruct (Z.eqb k k') eqn:E; [apply Z.eqb_eq in E; subst; rewrite Ek'; reflexivity|exact IH].
+  - destruct (Z.eqb k k') eqn:E; [|exact IH].
+    apply Z.eqb_eq in E. subst. rewrite IH, Ek'. reflexivity.
+Qed.
+
+Lemma history_state (ps : option (list Z)) (hist : list dict) : forall (st : dstate) k,
+  fst st = ps ->
+  lookup k (snd (fold_left dmerge hist st))
+  = match (if allowed ps k then hist_last k hist else None) with
+    | Some v => Some v
+    | None => lookup k (snd st)
+    end.
+Proof.
+  induction hist as [|n hist IH]; intros st k Hps; simpl.
+  - destruct (allowed ps k); reflexivity.
+  - rewrite (IH (dmerge st n) k) by (unfold dmerge; simpl; exact Hps).
+    unfold dmerge. simpl. rewrite lookup_app, lookup_dfilt, Hps.
+    destruct (allowed ps k); [|reflexivity].
+    destruct (hist_last k hist); [reflexivity|]. destruct (lookup k n); reflexivity.
+Qed.
 
 (* the repaired guard does not depend on the unit of time *)
 Lemma zclose_new_scale_free k a b : (0 < k)%Z -> zclose_new (k * a) (k * b) = zclose_new a b.
@@ -1042,28 +1107,28 @@ Qed.
 (* Witnesses on the instance. *)
 Definition gi (a b : Z) : GI := (a, b).
 Definition wB : M2 := mk2 (gi 1 0) (gi 0 2) (gi 3 0) (gi 4 0).       (* [[1, 2i], [3, 4]] *)
-(* f(t, w) = w * [[t, 1], [i t, 2]], default w = 1 *)
-Definition wdef (a : option Z) : Z := match a with Some w => w | None => 1%Z end.
-Definition wf_fun (a : option Z) (t : Z) : M2 :=
-  scale2 (gi (wdef a) 0) (mk2 (gi t 0) (gi 1 0) (gi 0 t) (gi 2 0)).
-Definition wg_fun (a : option Z) (t : Z) : M2 :=
-  scale2 (gi (wdef a) 0) (mk2 (gi 1 0) (gi t 0) (gi 0 0) (gi (2 + t) 0)).
+(* f(t, w=1) = w * [[t, 1], [i t, 2]]; the name w is coded 0 *)
+Definition wnone : dstate := dinit (Some [0%Z]) [].
+Definition wf_fun (a : dstate) (t : Z) : M2 :=
+  scale2 (gi (getd a 0 1) 0) (mk2 (gi t 0) (gi 1 0) (gi 0 t) (gi 2 0)).
+Definition wg_fun (a : dstate) (t : Z) : M2 :=
+  scale2 (gi (getd a 0 1) 0) (mk2 (gi 1 0) (gi t 0) (gi 0 0) (gi (2 + t) 0)).
 Definition wi : GI := gi 0 1.
 Definition wS : M2 := mk2 (gi 1 0) (gi 0 0) (gi 2 0) (gi 0 1).
 
 (* the term of (QobjEvo(f) @ B).dag() *)
 Definition w_elem : @elem G2 ZT :=
-  linear_map G2 ZT (@TDag G2) true (matmul G2 ZT (@Func G2 ZT wf_fun None) (@Const G2 ZT wB)).
+  linear_map G2 ZT (@TDag G2) true (matmul G2 ZT (@Func G2 ZT wf_fun wnone) (@Const G2 ZT wB)).
 (* (QobjEvo(f) @ B).dag() * 1j *)
 Definition w_tree : qx G2 ZT :=
-  @XMulNum G2 ZT (XDag (@XMatmulQ G2 ZT (@XFunc G2 ZT wf_fun None) wB)) wi.
+  @XMulNum G2 ZT (XDag (@XMatmulQ G2 ZT (@XFunc G2 ZT wf_fun wnone) wB)) wi.
 (* QobjEvo(g) @ (QobjEvo(f) @ B).dag() *)
 Definition w_tree2 : qx G2 ZT :=
-  XMatmul (@XFunc G2 ZT wg_fun None) (XDag (@XMatmulQ G2 ZT (@XFunc G2 ZT wf_fun None) wB)).
+  XMatmul (@XFunc G2 ZT wg_fun wnone) (XDag (@XMatmulQ G2 ZT (@XFunc G2 ZT wf_fun wnone) wB)).
 (* (QobjEvo(g, args={w: 2}) @ QobjEvo(f)).dag() re-evaluated with w = 3, then w = 5 *)
 Definition w_tree3 : qx G2 ZT :=
-  @XArgs G2 ZT (@XArgs G2 ZT (XDag (XMatmul (@XFunc G2 ZT wg_fun (Some 2%Z))
-                                              (@XFunc G2 ZT wf_fun None))) (Some 3%Z)) (Some 5%Z).
+  @XArgs G2 ZT (@XArgs G2 ZT (XDag (XMatmul (@XFunc G2 ZT wg_fun (dinit (Some [0%Z]) [(0%Z, 2%Z)]))
+                                              (@XFunc G2 ZT wf_fun wnone))) [(0%Z, 3%Z)]) [(0%Z, 5%Z)].
 
 Lemma w_elem_wf : wf G2 ZT w_elem.
 Proof.
@@ -1098,7 +1163,7 @@ Lemma w_tree3_wfx : wfx G2 ZT w_tree3.
 Proof. split; exact I. Qed.
 
 Lemma w_tree3_depends_on_args :
-  sem G2 ZT w_tree3 2%Z <> sem G2 ZT (@XArgs G2 ZT w_tree3 (Some 7%Z)) 2%Z.
+  sem G2 ZT w_tree3 2%Z <> sem G2 ZT (@XArgs G2 ZT w_tree3 [(0%Z, 7%Z)]) 2%Z.
 Proof. vm_compute. discriminate. Qed.
 
 (* sampled coefficients on nearly equal grids.  Ticks of 2^-53 s: the grids
